@@ -90,7 +90,11 @@ def model_requests(case, im=None):
         for j, f in enumerate(case['src']['flags']):
             ok = math.isfinite(im['lf'][j]) and math.isfinite(im['le'][j])
             rows.append([f, F(im['lf'][j]) if ok else F(lm[j]), F(im['le'][j]) if ok else F(0), F(im['w'][j]), F(case['a'][j]), F(case['s'][j]), F(lm[j])])
-        reqs += [('linreg', [rows]), ('optscale_sc', [F(case['av'][k]), rows]), ('optscale_av', [rows]), ('chi2', [rows, F(case['av'][k]), F(case['sc'][k])])]
+        # linreg_ortho: the regression as the code is written since F46 (LinregOrtho.linreg_ortho_m, proved equal to the normal-equation solution)
+        reqs += [('linreg_ortho', [rows]), ('optscale_sc', [F(case['av'][k]), rows]), ('optscale_av', [rows]), ('chi2', [rows, F(case['av'][k]), F(case['sc'][k])])]
+        last = rows
+    if case['lm']:
+        reqs.append(('linreg', [last]))      # the normal-equation form on the last rows: must be the very same rationals
     return reqs
 
 
@@ -146,6 +150,10 @@ def _judge_unit(case, im, mo):
                 tie = tie or d < 1e-9
         if not tie and ((ci == 'HUGE') != (cm == 'HUGE') or (ci != 'HUGE' and not close(ci, cm, 1e-9, 1e-9))):
             dis.append('chi_squared model %d: %r vs %r' % (k, im['chi'][k], cm if cm == 'HUGE' else float(cm)))
+    if case['lm'] and cond < 1e300 and len(mo) == 2 + 4 * len(case['lm']):
+        a, b = mo[1 + 4 * (len(case['lm']) - 1)], mo[-1]
+        if not isinstance(a, tuple) and not isinstance(b, tuple) and [F(x) for x in a] != [F(x) for x in b]:
+            dis.append('model: linreg_ortho_m %r differs from linreg_m %r on a non-singular system' % ([float(x) for x in a], [float(x) for x in b]))
     return dict(disagree=dis[:4], fail=[], nontrivial=True, tags=tags)
 
 
